@@ -3,12 +3,15 @@ import io, os, sys
 sys.path.insert(0, os.path.dirname(__file__))
 from _common import main
 
-BOUND = 'blocked inputs of 1..4 blocks (and cut short at arbitrary bytes) x delivered-so-far residues {0,1,4,1011,1012,1013} reached by 2 read chunkings x next read size 1..2030 (quick: edges +-3 and step 61; thorough: all) and read(); unblock_1014: every truncation length of 1..3-block files (quick: step 7 + edges) and every single-byte corruption of each trailer byte'
+BOUND = 'files with all-0x40 blocks at every position of 3 (whole and cut short); blocked inputs of 1..4 blocks (and cut short at arbitrary bytes) x delivered-so-far residues {0,1,4,1011,1012,1013} reached by 2 read chunkings x next read size 1..2030 (quick: edges +-3 and step 61; thorough: all) and read(); unblock_1014: every truncation length of 1..3-block files (quick: step 7 + edges) and every single-byte corruption of each trailer byte'
 
 
-def blocked(nblocks, seed=0):
+def blocked(nblocks, seed=0, pad_blocks=()):
     out = b''
     for j in range(nblocks):
+        if j in pad_blocks or -1 in pad_blocks:
+            out += b'\x40' * 1014       # a block whose payload is all 0x40 (blank-filled record data, or the last block of a file)
+            continue
         out += bytes(((i * 7 + j * 13 + seed) % 250) + 1 if ((i * 7 + j * 13 + seed) % 250) + 1 != 0x40 else 0xFD for i in range(1012)) + b'\x40\x40'
     return out
 
@@ -39,7 +42,7 @@ def oracle(inp):
     kind = inp['kind']
     if kind == 'read':
         if 'sizes' in inp:
-            return run_reads(blocked(inp['nblocks'])[:inp.get('cut')], inp['sizes'])
+            return run_reads(blocked(inp['nblocks'], pad_blocks=tuple(inp.get('pad_blocks', ())))[:inp.get('cut')], inp['sizes'])
         L, d, k = inp['filelen'], inp['delivered'], inp['k']
         if not (0 <= L <= 6000 and 0 <= d <= 6000 and (k is None or 1 <= k <= 7000)):
             return None
@@ -93,6 +96,12 @@ def cases(tier, rng):
             for k in sizes:
                 yield {'kind': 'read', 'nblocks': nb, 'sizes': pre + [k, 5, None]}
             yield {'kind': 'read', 'nblocks': nb, 'sizes': pre + [None, 3]}
+    for pads in ([0], [1], [0, 1], [2], [-1], [0, 2]):
+        for szs in ([None], [1, None], [1012, 1012, 1012, None], [1013, None], [2024, 1, None], [3036, None], [4, 1008, 4, None], [5000]):
+            yield {'kind': 'read', 'nblocks': 3, 'pad_blocks': pads, 'sizes': szs}
+        for cut in (1013, 1014, 1500, 2027, 2028, 2029, 2500, 3041):
+            yield {'kind': 'read', 'nblocks': 3, 'pad_blocks': pads, 'cut': cut, 'sizes': [7, None]}
+            yield {'kind': 'read', 'nblocks': 3, 'pad_blocks': pads, 'cut': cut, 'sizes': [None]}
     for cut in (1, 500, 1012, 1013, 1014, 1015, 2027, 2028, 2029):
         for k in (1, 4, 1011, 1012, 1013, 2000):
             yield {'kind': 'read', 'nblocks': 3, 'cut': cut, 'sizes': [k, k, None]}
